@@ -1360,6 +1360,16 @@ class FileBuilder:
                     self._build_dirs.error_building_file(filename)
                     raise
             elif isinstance(suboperation, ComplexOperation):
+                if (isinstance(suboperation, BuildFileOperation) and
+                        os.path.isfile(suboperation.filename) and
+                        self._backups.back_up_and_remove(
+                            suboperation.filename)):
+                    # The cached build_file* call raised an exception. Had we
+                    # executed it, it would have removed the existing file.
+                    logger.info(
+                        'Moved {:s} to a temporary directory, because the '
+                        'cached build_file* call for that file raised an '
+                        'exception'.format(suboperation.filename))
                 self._apply_cached_suboperations(suboperation)
 
     def _dirs_to_make(self, dir_, created_files):
